@@ -71,6 +71,7 @@ type Cluster struct {
 	BgFault func(t structs.MessageType) (fault string, desc string)
 	// FaultQueue: faults for the next proposals that carry none of their own
 	FaultQueue []string
+	adminReady bool
 	// RaceHook commits somebody else's entry in front of a proposal that carries the fault "race"
 	// (CommitForeign); false if it had nothing to commit
 	RaceHook func(t structs.MessageType, buf []byte) bool
@@ -557,4 +558,33 @@ func (c *Cluster) failover() {
 
 func describeResp(v any) string {
 	return strings.TrimSpace(simkit.Trunc(CanonResult(v), 300))
+}
+
+
+const aclAdminSecret = "5ec4e700-0000-4000-8000-0000000000ad"
+
+// PolicyRMW updates a stored policy the way `consul acl policy update` does: read the policy, change it,
+// send the whole object back to the real ACL.PolicySet endpoint of the leader. False if there is nothing
+// to update (the caller then writes the policy as a new one). The shell must resolve tokens
+// (consul.VerifEnableACLs); the operator token is created on first use.
+func (c *Cluster) PolicyRMW(st Step) bool {
+	_, cur, err := c.L.State().ACLPolicyGetByID(nil, st.ID, nil)
+	if err != nil || cur == nil {
+		return false
+	}
+	if !c.adminReady {
+		// an operator token that may write ACLs (its policy says so explicitly)
+		c.Do(Step{Op: "acl.policy.set", ID: PolicyUUID(99), Name: "verif-admin", Text: `acl = "write"`})
+		c.Do(Step{Op: "acl.token.set", ID: TokenUUID(99), Text: aclAdminSecret, List: []string{PolicyUUID(99)}})
+		c.adminReady = true
+	}
+	pol := *cur // Hash, indexes and all, as a client that read it would hold it
+	pol.Rules, pol.Name, pol.Datacenters = st.Text, st.Name, st.List
+	args := &structs.ACLPolicySetRequest{Datacenter: "dc1", Policy: pol, WriteRequest: structs.WriteRequest{Token: aclAdminSecret}}
+	var reply structs.ACLPolicy
+	var rerr error
+	c.Main(func() { rerr = consul.VerifACLPolicySet(c.Shell, args, &reply) })
+	c.Run.Eventf("acl.policy.set through the endpoint (read-modify-write) %s -> err=%v", st.Name, rerr != nil)
+	c.Run.Hit("probe.policy-read-modify-write")
+	return true
 }
